@@ -47,11 +47,16 @@ StrWalk(b, pos, cnt) ==
     IF cnt = 64 \/ pos > Len(b) \/ Len(b) = 0 THEN <<cnt, pos>>
     ELSE LET p == FirstNul(b, pos + 1)
          IN IF p = 0 THEN <<cnt, pos>> ELSE StrWalk(b, p, cnt + 1)
-StrProj(f, start, len) ==
-    LET b == FSub(f, start, len)
-        w == StrWalk(b, 0, 0)
+StrProjOn(b, start) ==
+    LET w == StrWalk(b, 0, 0)
     \* the position is observable only through a non-empty string (walked > nstr: some string has bytes)
     IN [nstr |-> w[1], walked |-> w[2], ck |-> Ck(SubSeq(b, 1, w[2])), start |-> IF w[2] > w[1] THEN start ELSE 0]
+\* the walk reads the table left to right and stops after 64 strings: when those lie in the first 4 KiB of a long
+\* table, the rest of the table need not be looked at (same answer by construction; otherwise the whole range is used)
+StrProj(f, start, len) ==
+    IF len <= 4096 THEN StrProjOn(FSub(f, start, len), start)
+    ELSE LET ps == StrProjOn(FSub(f, start, 4096), start)
+         IN IF ps.nstr = 64 THEN ps ELSE StrProjOn(FSub(f, start, len), start)
 
 \* lazy table projection at the indices the recorder chose
 TblProj(ty, class, little, b, idx) ==
